@@ -61,6 +61,22 @@ def card_first():
     return out
 
 
+def two_statuses():
+    """The release answered by two status informations: the summary reproduces what the terminal reported last - a field the last one does
+    not carry is not filled in from an earlier one."""
+    full = {"amount": [1, 2, 3], "trace": [9, 7, 6], "date": [4, 0, 6], "time": [1, 0, 1, 5, 0, 0], "terminal_id": [5, 2, 5, 0, 0, 0, 4, 1]}
+    other = {"amount": [7], "trace": [1], "date": [1, 2, 3, 1], "time": [2, 3, 5, 9, 5, 9], "terminal_id": [1]}
+    out = []
+    variants = [{}] + [{k: v for k, v in full.items() if k != drop} for drop in full] + [{k: full[k]} for k in full] + [other, dict(other, amount=None)]
+    for first in (full, other, {}):
+        for second in variants:
+            second = {k: v for k, v in second.items() if v is not None}
+            out.append({"config": {"max": 1}, "calls": [{"op": "begin", "token": [97], "amount": []}, {"op": "commit", "token": [97], "amount": [1]}],
+                        "plan": {"exchanges": [{"o": "ok", "status": {"amount": [1]}}, {"o": "ok", "status": first, "status2": second}],
+                                 "default": {"o": "ok", "status": {"amount": [1]}}}})
+    return out
+
+
 def run(chk):
     wd = vlib.workdir("C08")
     thorough = chk.tier == "thorough"
@@ -70,7 +86,7 @@ def run(chk):
     walks = cl.random_walks(chk.seed + 8, 3000 if thorough else 300, 6)
     again = refused_then_again()
     scripts = cl.script_walks(chk, binary, wd, chk.seed + 8, 2000 if thorough else 150)
-    cards = card_first()
+    cards = card_first() + two_statuses()
     out = cl.run_scenarios(binary, sc + again + walks + scripts + cards, wd, "c08")
     outs, ifl, pfl = cl.validate(chk, out, wd, "c08", shard=600)
     cl.report(chk, outs, ifl, pfl, {"P08", "abnormal"}, WHAT)
